@@ -119,7 +119,7 @@ pub fn meta(prop: &str) -> Meta {
     match prop {
         "C01" => m(
             "exploration",
-            "tape-generated valid packets of every type (proptest, 16 shards) encoded and decoded by the blocking, async and poll front-ends; a case is non-trivial when its encoding is longer than 4 bytes (carries a variable-length field, property section or code list); distinct by FNV-1a hash of the encoding",
+            "tape-generated valid packets of every type (proptest, 16 shards) encoded and decoded by the blocking, async and poll front-ends; plus boundary-size constructions (sized.rs): PUBLISH with every remaining length from -2 to +5 around 128 / 16,384 / 2,097,152 and beyond 16 MiB, every v5 packet type and the will with a property section of exactly those lengths, UTF-8-flagged multi-byte payloads up to 4 MiB+ (16 MiB+ thorough); a case is non-trivial when its encoding is longer than 4 bytes (carries a variable-length field, property section or code list); distinct by FNV-1a hash of the encoding",
             &[COMMON_ASSUME, BOUNDS],
         ),
         "C02" => Meta {
@@ -156,7 +156,7 @@ pub fn meta(prop: &str) -> Meta {
         ),
         "C05" => m(
             "exploration",
-            "delivery schedules of the poll decoder: exhaustively every composition of the stream into chunks x {no Pending, Pending before every read, Pending before every read with the future dropped and re-created from the caller-held state at every Pending} for a fixed list of short streams (shortest packet of every type, long-form spellings, catalogue malformations, truncations, trailing bytes, non-minimal headers; length <= 15 quick / 18 thorough), and random schedules (chunks 1..64, Pending with p=1/3, random drop masks, forced interruption inside the var-int) for corpus-generated streams with 1-4 byte headers. Oracle: the uninterrupted one-shot run on the same bytes (result, total, body), Pending only when the transport returned Pending in that poll, every requested capacity <= bytes left in the frame (frame end from the harness' header parse), consumed = reported total on success, consumed <= frame end on error. Non-trivial: schedule with >= 2 body reads or a drop at a Pending; distinct by construction (exhaustive part) / hash of the stream",
+            "delivery schedules of the poll decoder: exhaustively every composition of the stream into chunks x {no Pending, Pending before every read, Pending before every read with the future dropped and re-created from the caller-held state at every Pending} for a fixed list of short streams (shortest packet of every type, long-form spellings, catalogue malformations, truncations, trailing bytes, non-minimal headers; length <= 15 quick / 18 thorough), and random schedules (chunks 1..64, Pending with p=1/3, random drop masks, forced interruption inside the var-int) for corpus-generated streams with 1-4 byte headers; for PUBLISH streams with 2-, 3- and 4-byte headers (valid, non-minimally framed, followed by further packets) every split of the first 8 bytes x 4 deliveries of the rest x the 3 modes. Oracle: the uninterrupted one-shot run on the same bytes (result, total, body), Pending only when the transport returned Pending in that poll, every requested capacity <= bytes left in the frame (frame end from the harness' header parse), consumed = reported total on success, consumed <= frame end on error. Non-trivial: schedule with >= 2 body reads or a drop at a Pending; distinct by construction (exhaustive part) / hash of the stream",
             &[COMMON_ASSUME],
         ),
         "C06" => m(
